@@ -1,0 +1,14 @@
+//! Entry point of the component wrappers used by the external verification harness
+//!
+//! Compiled only with the private `__verif` feature. The wrappers themselves live next to the
+//! private modules they wrap (visibility), this module only gathers them:
+//!
+//! - [`VerifAssembler`], [`VerifSendBuffer`], [`VerifDedup`], [`VerifMtuDiscovery`] and
+//!   [`rtt_estimator`] from `connection::verif_comp`
+//! - [`VerifRangeSet`] and [`VerifArrayRangeSet`] from `range_set::verif_comp`
+//! - `Bbr::verif_reseed` is an inherent method defined in `congestion::bbr::verif_comp`
+
+pub use crate::connection::verif_comp::{
+    VerifAssembler, VerifDedup, VerifMtuDiscovery, VerifSendBuffer, rtt_estimator,
+};
+pub use crate::range_set::verif_comp::{VerifArrayRangeSet, VerifRangeSet};
